@@ -12,7 +12,7 @@ TITLE = ("Decides the buffering protocol that makes CTR output independent of ho
          "from type information: (R1) every success path of every setter must-stores BATCH to offset; (R2) so does init; "
          "(R3) a refill (one call encrypting counter -> ecounter under this context's schedule, then every lane advanced "
          "exactly once by L = BATCH/BLOCK) happens only when the buffer is provably exhausted; (R4) set_counter defines all "
-         "counter bytes (left zero padding, null = zero) and staggers lane i by i; (R5) symbolic execution of every path of "
+         "counter bytes (left zero padding, null = zero) and staggers lane i by i; (R5) path-sensitive abstract interpretation of every path of "
          "the encrypt function (first loop iteration from the entry state, one generic iteration under an invariant, exits) "
          "with two ghosts - pos, the first unused keystream byte, and T, the data bytes produced: every keystream xor "
          "starts at pos, fits in the buffer and in the remaining size, offset is back in sync with pos at every back "
@@ -151,7 +151,7 @@ def loop_paths(f, header, body, limit=64):
 
 
 def check_encrypt(prog, an, rep, cn, b, name, f, hidx):
-    """R3 / R5 / R7 by symbolic execution of the buffering protocol (c05_proto)."""
+    """R3 / R5 / R7 by path-sensitive abstract interpretation of the buffering protocol (c05_proto)."""
     from .c05_proto import Proto
     C = Ctx5(prog, an, b, f, hidx)
     P = Proto(prog, an, rep, cn, b, name, f, hidx, C)
